@@ -83,17 +83,17 @@ func verifC09Hidi(t *testing.T) {
 	if err := json.Unmarshal(data, &in); err != nil {
 		t.Fatalf("verif: bad input: %v", err)
 	}
-	stop := make(chan struct{})
-	defer close(stop)
-	go func() { // the logger's channel has capacity 128: drain it
+	// As in main(): nothing reads the logger's channel (capacity 128) while LoadHIDIConfig runs - processLogs starts later.  The channel
+	// is emptied BETWEEN the calls only, so a call that queues more messages than the channel holds blocks and is reported as a hang.
+	drainLogs := func() {
 		for {
 			select {
 			case <-logger.Messages:
-			case <-stop:
+			default:
 				return
 			}
 		}
-	}()
+	}
 	wd := time.Duration(in.WatchdogMs) * time.Millisecond
 	if wd <= 0 {
 		wd = 5 * time.Second
@@ -127,7 +127,9 @@ func verifC09Hidi(t *testing.T) {
 		if err := os.WriteFile(path, content, 0o644); err != nil {
 			t.Fatalf("verif: %v", err)
 		}
+		drainLogs()
 		impl := load(path)
+		drainLogs()
 		orac := c09hWatch(wd, func() c09hCall {
 			var raw HIDIConfigRaw
 			if err := toml.Unmarshal(append([]byte{}, content...), &raw); err != nil {
@@ -139,7 +141,9 @@ func verifC09Hidi(t *testing.T) {
 			DecClass: orac.class, DecErr: c09hCut(orac.msg), Raw: orac.v})
 	}
 	os.Remove(path)
+	drainLogs()
 	m := load(filepath.Join(in.Dir, "does-not-exist.toml"))
+	drainLogs()
 	out.Missing = c09hRes{Class: m.class, Err: c09hCut(m.msg), Dur: m.v}
 	if progress != nil {
 		progress.Close()
